@@ -45,6 +45,9 @@ type env struct {
 	probeCounter atomic.Int64
 	salt         uint16
 
+	// decisive overrides decisiveWindow when not zero.
+	decisive time.Duration
+
 	// inflight, if not nil, measures how many exchanges of one path overlap.
 	inflight *concurrency
 
@@ -52,6 +55,16 @@ type env struct {
 	canons      map[int]map[string]canon
 	wantSamples map[string]struct{}
 	infra       int
+}
+
+// window returns how recently the harness must have written on a connection
+// for a close by the server to be inexplicable by a server-side read timeout.
+func (e *env) window() time.Duration {
+	if e.decisive != 0 {
+		return e.decisive
+	}
+
+	return decisiveWindow
 }
 
 func (e *env) infraFailure(where string, err error) {
@@ -340,7 +353,7 @@ func (s *streamSession) exchange(in *input, wantAnswer bool) (o observation) {
 		waited := time.Since(since)
 		s.drop()
 
-		if o.res.Outcome == tbench.Closed && wantAnswer && waited > decisiveWindow {
+		if o.res.Outcome == tbench.Closed && wantAnswer && waited > s.e.window() {
 			// The server may have closed the connection because of its own
 			// read timeout; not decidable.
 			s.e.r.Bucket("ambiguous:stream-closed-after-long-wait", 1)
@@ -387,7 +400,7 @@ func (s *streamSession) burst(ins []*input) (obs []observation, unmatched [][]by
 		s.drop()
 		for i := range obs {
 			obs[i].res = tbench.Result{Outcome: tbench.Closed, Err: err.Error()}
-			if time.Since(since) > decisiveWindow {
+			if time.Since(since) > s.e.window() {
 				obs[i].ambiguous = "write failed after a long wait"
 			}
 		}
@@ -418,7 +431,7 @@ func (s *streamSession) burst(ins []*input) (obs []observation, unmatched [][]by
 	for n := 0; n < len(ins); n++ {
 		res := s.c.Read(s.e.answerWait)
 		if res.Outcome != tbench.Answered {
-			long := time.Since(since) > decisiveWindow
+			long := time.Since(since) > s.e.window()
 			s.drop()
 			for i := range obs {
 				if obs[i].res.Outcome == "" {
